@@ -136,7 +136,7 @@ static void owner_thread(void) {
 static void foreign_thread(int with_ctx) {
     static const char PAY = 'z'; um_t mine = { 9, 0, 0, 0, NULL };
     m_mod_hook_t hk = { on_start, NULL, on_evt, on_stop };
-    if (with_ctx) { if (m_ctx_register("foreign", M_CTX_PERSIST, NULL)) sch_fail("TC.setup", "TC.setup", "ctx_register failed"); m_ctx_set_logger(quiet_logger); m_mod_register("F", &mine.h, &hk, 0, &mine); m_ctx_dispatch(); }
+    if (with_ctx) { if (m_ctx_register("foreign", M_CTX_PERSIST, NULL)) sch_fail("TC.setup", "TC.setup", "ctx_register failed"); m_ctx_set_logger(quiet_logger); m_mod_register("A", &mine.h, &hk, 0, &mine);   /* same name as the foreign module on purpose */ m_ctx_dispatch(); }
     hs_wait(1);
     m_mod_t *m = shared_mod, *o = shared_other;
     FCALL("m_mod_start", m_mod_start(m)); FCALL("m_mod_pause", m_mod_pause(m)); FCALL("m_mod_resume", m_mod_resume(m)); FCALL("m_mod_stop", m_mod_stop(m));
@@ -157,7 +157,7 @@ static void foreign_thread(int with_ctx) {
         if (r >= 0) sch_fail("TC.perm", "TC.perm|cross-ctx-tell", "tell to a module of another context returned %ld", r);
         r = m_mod_ps_poisonpill(mine.h, m);
         if (r >= 0) sch_fail("TC.perm", "TC.perm|cross-ctx-pill", "poisonpill to a module of another context returned %ld", r);
-        if (m_mod_lookup(mine.h, "A")) sch_fail("TC.perm", "TC.perm|lookup", "lookup found a module of another context");
+        if (m_mod_lookup(mine.h, "A") == m) sch_fail("TC.perm", "TC.perm|lookup", "lookup found a module of another context");
     }
     hs_set(2);
     if (with_ctx) { m_ctx_quit(0); m_ctx_dispatch(); m_mod_deregister(&mine.h); m_ctx_deregister(); }
